@@ -374,18 +374,26 @@ func runTarjan(c *Ctx) {
 	c.R.Add("TARJAN", "worker|returns-low-link", wn, p.Pos(w.Pos()), retOK, "the worker returns its low-link", fmt.Sprintf("ok=%v", retOK))
 	// T5: the driver starts the worker for every vertex that is still unvisited, and returns the recorded components
 	drvOK := false
+	other := ""
 	for _, l := range core.Lits(core.Guards(entry.Block())) {
+		isUnvisited := false
 		if l.Kind == "cmp" && l.Op == token.EQL && l.Pol {
 			if lk, ok := l.X.(*ssa.Lookup); ok {
 				if k, ok := core.ConstInt(l.Y); ok && k == 0 && lk.Index == entry.Common().Args[len(entry.Common().Args)-1] {
 					if r, ok := core.Root(lk.Index).(*ssa.Call); ok && core.CalleeName(r.Common()) == core.GVertices {
 						drvOK = true
+						isUnvisited = true
 					}
 				}
 			}
 		}
+		// nothing else selects the start vertices (a component need not be reachable from a vertex without predecessors)
+		if !isUnvisited && !core.IsLoopBound(l) {
+			other = l.String()
+		}
 	}
-	c.R.Add("TARJAN", "driver|every-unvisited-vertex", core.FuncName(sc), p.InstrPos(entry), drvOK, "the driver runs the worker from every vertex of the graph that has no index yet", fmt.Sprintf("ok=%v", drvOK))
+	c.R.Add("TARJAN", "driver|every-unvisited-vertex", core.FuncName(sc), p.InstrPos(entry), drvOK && other == "", "the driver runs the worker from every vertex of the graph that has no index yet — and from no narrower choice of start vertices",
+		ternary(other == "", fmt.Sprintf("ok=%v", drvOK), "the start is also conditional on "+other))
 	// Cycles(): keeps exactly the components with more than one vertex (documented: self-loops are not reported)
 	if cy := p.Method(p.Graph, "Graph", "Cycles"); cy != nil {
 		c.R.Func(core.FuncName(cy))
